@@ -230,6 +230,18 @@ def check_pydantic(ctx: Ctx) -> None:
             mn = cfg.node_of(m)
             esc = cfg.escape_path(mn, acts)
             ctx.ob("15.1b-flag", con, esc is None, f"{name} edits the model fields (`{norm_stmt(m, 60)}`) and can return without setting __model_needs_rebuild: validation keeps using the model compiled for the previous definition [{cfg.describe_path(esc)}]", node=m if isinstance(m, ast.stmt) else rules.enclosing_stmt(f, m))
+    # _copy gives the COPY a model with fields of its own: the model just derived was compiled from its base class, not
+    # from those fields (which may have been edited since), so the copy must be flagged for rebuild, whatever the
+    # flag of the original
+    cp_ = cls.methods.get("_copy")
+    if cp_ is not None:
+        other = cp_.args.args[1].arg
+        writes = [s_ for s_ in stmts_of(cp_) if isinstance(s_, ast.Assign) and isinstance(s_.targets[0], ast.Attribute) and s_.targets[0].attr == "model_fields" and (dotted(s_.targets[0].value) or "").startswith(other + ".")]
+        flags_ = [s_ for s_ in stmts_of(cp_) if isinstance(s_, ast.Assign) and isinstance(s_.targets[0], ast.Attribute) and s_.targets[0].attr in flag and dotted(s_.targets[0].value) == other]
+        if writes:
+            cfgc = cfg_of(cp_)
+            ok = len(flags_) >= 1 and all(isinstance(s_.value, ast.Constant) and s_.value.value is True for s_ in flags_) and all(cfgc.escape_path(cfgc.node_of(w_), {cfgc.node_of(s_) for s_ in flags_}) is None for w_ in writes)
+            ctx.ob("15.1b-flag", cname(PG, "PydanticGrammar", "_copy"), ok, "_copy installs fields in the model of the copy: the copy must be flagged for rebuild (True), not given the flag of the original (False after a validation, although the derived model was not compiled from these fields): the copy would validate a stale definition", node=(flags_ or writes)[0], stmt="the copy is flagged for rebuild after its fields are installed")
     ctx.floor("15.1b-flag", 6)
     # the model is rebuilt before every use
     uses = {"_validate": "model_validate", "schema": "model_json_schema", "__getstate__": "model_fields"}
